@@ -273,7 +273,11 @@ def _ax_hook(interp, name, args, kwargs, node):
     if name == "numpy.linalg.inv" and isinstance(args[0], AxArr):
         a = args[0]
         return AxArr(a.axes, "inv(" + a.tag + ")")
-    if name == "numpy.hstack":
+    if name == "numpy.hstack" or (name == "numpy.concatenate" and int(
+            kwargs.get("axis", 0)) == 0 and all(
+            not isinstance(x, AxArr) or len(x.axes) == 1
+            for x in args[0])):
+        # for 1-D operands np.concatenate is np.hstack
         seq = list(args[0])
         return ("hstack", tuple(seq))
     if name == "dataclasses.replace":
@@ -460,6 +464,68 @@ def _tolocal_facets(model, rep):
        "data", FCO, "COOData.tolocal",
        "tolocal(basis): " + ("; ".join(why) or f"returns {r!r} after {log}"),
        tl.lineno)
+
+
+def _add_functionals(model, rep):
+    """COOData.__add__ + todefault for 0-tensors (functionals summed over a
+    list of bases): the data of one basis is (1, k) for a functional with k
+    components; adding two must give something todefault() reduces to the
+    *componentwise sum* (k values), not the concatenation (2k values).
+    Symbolic run with axis-typed data."""
+    L2 = "C19-L2"
+    ccls = model.cls(CO, "COOData")
+    add, td = ccls.methods["__add__"], ccls.methods["todefault"]
+
+    def hook(interp, name, args, kwargs, node):
+        if name in ("numpy.hstack", "numpy.concatenate", "numpy.vstack"):
+            seq = list(args[0])
+            if all(isinstance(x, AxArr) for x in seq):
+                nd = len(seq[0].axes)
+                if name == "numpy.hstack":
+                    ax = 0 if nd == 1 else 1
+                elif name == "numpy.vstack":
+                    ax = 0
+                else:
+                    ax = int(kwargs.get("axis", 0))
+                axes = list(seq[0].axes)
+                axes[ax] = ("joined", axes[ax])
+                return AxArr(axes, "data")
+            return ("joined-other",)
+        if name == "numpy.sum" and isinstance(args[0], AxArr):
+            ax = kwargs.get("axis", args[1] if len(args) > 1 else None)
+            axes = list(args[0].axes)
+            if ax is None:
+                return AxArr((), "sum")
+            axes.pop(int(ax))
+            return AxArr(axes, "sum")
+        if name == "dataclasses.replace":
+            o = Obj(ccls, dict(args[0].attrs))
+            o.attrs.update(kwargs)
+            return o
+        return NotImplemented
+    for label, axes, want in (("scalar", ("term",), ()),
+                              ("k components", ("term", "comp"),
+                               ("comp",))):
+        a = Obj(ccls, {"data": AxArr(axes), "indices": AxArr(("e",)),
+                       "shape": (), "local_shape": ()})
+        b = Obj(ccls, {"data": AxArr(axes), "indices": AxArr(("e",)),
+                       "shape": (), "local_shape": ()})
+        try:
+            it = Interp(model, call_hook=hook)
+            s_ = it.call(add, [b], {}, self_obj=a)
+            r = it.call(td, [], {}, self_obj=s_)
+        except (Unsupported, Raised) as e:
+            raise AnalysisError(f"COOData.__add__/todefault (0-tensor, "
+                                f"{label}): {e}")
+        ok = isinstance(r, AxArr) and tuple(r.axes) == want
+        _v(rep, L2, ok, f"COOData.__add__[functional,{label}]",
+           "the sum over a list of bases reduces over the terms and keeps "
+           "the components", FCO, "COOData.__add__",
+           f"for a functional with {label} the sum of two assemblies "
+           f"reduces to axes {getattr(r, 'axes', r)!r}, expected {want!r}: "
+           f"the data of the bases are joined along the component axis, so "
+           f"asm(functional, [b1, b2]) returns the per-basis values side by "
+           f"side instead of their sum", add.lineno)
 
 
 def _l3(model, rep):
@@ -932,6 +998,7 @@ def run(model: Model, rep, tier: str) -> None:
     rep.rule("C19-L6", "asm zips products over the same lists")
     staged(lambda: _l1(model, rep), lambda: _l2(model, rep),
            lambda: _tolocal_facets(model, rep),
+           lambda: _add_functionals(model, rep),
            lambda: _l3(model, rep), lambda: _l4(model, rep),
            lambda: _composite_padding(model, rep),
            lambda: _bmat_blocks(model, rep),
@@ -954,6 +1021,10 @@ _LOCS = """            self.doflocs = np.array([
 _AS = "skfem/assembly/__init__.py"
 _ADI = "skfem/autodiff/__init__.py"
 MUTANTS = [
+    ("added functionals joined along the component axis",
+     ("skfem/assembly/form/coo_data.py",
+      "            data=np.concatenate((self.data, other.data)),",
+      "            data=np.hstack((self.data, other.data)),"), "C19-L2"),
     ("bmat accumulates the running offset twice",
      ("skfem/utils.py", "                diff = sizes[-1]",
       "                diff += sizes[-1]"), "C19-L5"),
